@@ -3,6 +3,7 @@ package c18
 import (
 	"bytes"
 	"fmt"
+	"strings"
 	"sync"
 	"time"
 
@@ -120,5 +121,83 @@ func laneSlow(c *ev.Ctx, extraEnv []string) {
 				c.Distinct("slow|" + u.name + "|" + pause.String())
 			}
 		}
+	}
+}
+
+// Refused-owner-change lane: "the ownership ... data the gateway keeps for proxied buckets round-trips intact" - also
+// across an admin request that is refused. An account that only the proxy's IAM knows is to become the owner of a
+// proxied bucket; the endpoint does not know it and refuses. Whatever the proxy answers, a refused change changes
+// nothing: GetBucketAcl through the proxy names the same owner as before and the would-be owner has no access.
+func laneRefusedOwnerChange(c *ev.Ctx, extraEnv []string) {
+	if !c.Want("owner") {
+		return
+	}
+	p, err := newProg(c, "owner", 11, extraEnv)
+	if err != nil {
+		c.Inconclusive("gateway start (owner lane): " + firstLine(err.Error()))
+		return
+	}
+	defer p.close()
+	if r := p.envP.CreateUser("carol", "carol-secret-1", "user", 0, 0); r.Status != 201 && r.Status != 200 {
+		c.Inconclusive("owner lane: create user on the proxy: " + r.String())
+		return
+	}
+	root := p.P.cl
+	carol := root.With("carol", "carol-secret-1")
+	const b = "owned-by-root"
+	if r := root.CreateBucket(b, "x-amz-object-ownership", "BucketOwnerPreferred"); !r.OK() {
+		c.Inconclusive("owner lane: create bucket: " + r.String())
+		return
+	}
+	root.PutObject(b, "doc", []byte("data"))
+	ownerOf := func() string {
+		g := root.Sub("GET", b, "", "acl=", nil)
+		i := strings.Index(string(g.Body), "<Owner><ID>")
+		if !g.OK() || i < 0 {
+			return g.String()
+		}
+		rest := string(g.Body)[i+len("<Owner><ID>"):]
+		j := strings.Index(rest, "</ID>")
+		if j < 0 {
+			return g.String()
+		}
+		return rest[:j]
+	}
+	before := ownerOf()
+	if pr := carol.PutObject(b, "by-carol", []byte("x")); pr.OK() {
+		c.Inconclusive("owner lane: the stranger can write before any change")
+		return
+	}
+	for i, target := range []string{"carol", "nobody-knows-this-account"} {
+		id := fmt.Sprintf("owner/%d", i)
+		ch := root.Admin("/change-bucket-owner", s3c.Q("bucket", b, "owner", target), nil)
+		c.Eval(1)
+		if ch.Err != nil {
+			c.Inconclusive("owner lane: transport error")
+			return
+		}
+		after := ownerOf()
+		det := map[string]any{"new_owner_asked_for": target, "answer": ch.String(), "owner_before": before, "owner_after": after}
+		if ch.OK() {
+			// accepted: then it must be in force everywhere (and is the new baseline)
+			if after != target {
+				c.Violation("owner-change:accepted-but-not-in-force", id, det)
+			}
+			before = after
+			c.Distinct("owner|accepted|" + target)
+			continue
+		}
+		if after != before {
+			c.Violation("owner-change:refused-but-ownership-record-changed", id, det)
+			continue
+		}
+		if target == "carol" {
+			if pr := carol.PutObject(b, "by-carol", []byte("x")); pr.OK() {
+				det["put_by_would_be_owner"] = pr.String()
+				c.Violation("owner-change:refused-but-would-be-owner-has-access", id, det)
+				continue
+			}
+		}
+		c.Distinct("owner|refused|" + target)
 	}
 }
